@@ -191,7 +191,7 @@ def seeded(tier, jobs, only=None):
             ap = subprocess.run(["git", "-C", wt, "apply", os.path.join(d, "patch.diff")])
             if ap.returncode != 0:
                 print("SEEDED %-8s %s -> patch does not apply any more" % (sid, prop))
-                results.append((sid, False))
+                results.append((sid, False, False))
                 continue
             t = time.time()
             p = subprocess.run([os.path.join(VERIF, "check"), prop, "--tier", "quick"], cwd=VERIF,
@@ -202,12 +202,14 @@ def seeded(tier, jobs, only=None):
             out_of_scope = meta.get("status", "").startswith("not caught")
             verdict = "caught" if caught else ("not caught (recorded as outside the operationalised scope)" if out_of_scope else "MISSED")
             print("SEEDED %-8s %s -> %s (exit %d, %.0fs) %s" % (sid, prop, verdict, p.returncode, time.time() - t, last[:90]))
-            results.append((sid, caught or out_of_scope))
+            results.append((sid, caught or out_of_scope, out_of_scope and not caught))
         finally:
             subprocess.run(["git", "-C", boot.REPO, "worktree", "remove", "--force", wt])
             subprocess.run(["git", "-C", boot.REPO, "worktree", "prune"])
             shutil.rmtree(tmp, ignore_errors=True)
-    print("seeded: %d/%d changes caught" % (sum(1 for r in results if r[1]), len(results)))
+    print("seeded: %d of %d changes caught, %d recorded as outside the operationalised scope, %d missed" %
+          (sum(1 for r in results if r[1] and not r[2]), len(results), sum(1 for r in results if r[2]),
+           sum(1 for r in results if not r[1])))
     return 0 if all(r[1] for r in results) else 1
 
 
